@@ -27,7 +27,7 @@ use ops::{exec, Outcome};
 use verif_rt::{Kind, Report, MAX_TASKS, N_SLOTS};
 
 const ENGINE_TAG: u64 = 0xB;
-const MAX_STEPS: usize = 400_000;
+const MAX_STEPS: usize = 20_000_000;
 const STACK_SIZE: usize = 1 << 20;
 
 // ------------------------------------------------------------------------------------------
@@ -93,6 +93,8 @@ struct Engine {
     // --- per scenario
     reference: Vec<Vec<Outcome>>,
     ref_constructed: [[u32; N_SLOTS]; 2],
+    /// step bound of a raced execution, derived from the seam calls of the reference pass
+    max_steps: usize,
     // --- result of the last execution
     last: Option<ExecResult>,
 }
@@ -118,6 +120,7 @@ impl Engine {
             observed: Vec::new(),
             reference: Vec::new(),
             ref_constructed: [[0; N_SLOTS]; 2],
+            max_steps: MAX_STEPS,
             last: None,
         }
     }
@@ -125,6 +128,28 @@ impl Engine {
 
 thread_local! {
     static ENGINE: RefCell<Engine> = RefCell::new(Engine::new());
+    /// Progress marker file (one fixed-size record, rewritten in place): lets the driver tell,
+    /// after a worker died on a signal (abort on a failed allocation, stack overflow, SIGSEGV in
+    /// the simulated code), which scenario / execution it was running.
+    static PROGRESS: RefCell<Option<std::fs::File>> = const { RefCell::new(None) };
+}
+
+fn progress_open(path: &str) {
+    if path != "-" {
+        if let Ok(f) = std::fs::OpenOptions::new().create(true).write(true).truncate(true).open(path) {
+            PROGRESS.with(|p| *p.borrow_mut() = Some(f));
+        }
+    }
+}
+
+fn progress(phase: &str, scenario_index: u64, scenario_seed: u64, k: u64) {
+    use std::os::unix::fs::FileExt;
+    PROGRESS.with(|p| {
+        if let Some(f) = p.borrow().as_ref() {
+            let rec = format!("{:<3} {:>20} {:>20} {:>10}\n", phase, scenario_index, scenario_seed, k);
+            let _ = f.write_all_at(rec.as_bytes(), 0);
+        }
+    });
 }
 
 struct SimScheduler {
@@ -282,6 +307,7 @@ struct ExecStats {
     stalls_fired: u32,
     stalls_fired_in_init: u32,
     stalls_cut_short: u32,
+    losers_blocked_while_winner_stalled: u32,
     late_threads: u32,
     late_after_init: u32,
     late_forced: bool,
@@ -499,6 +525,8 @@ fn evaluate(sc: &Scenario, report: Report, race_phase_events: usize, h3: Vec<Vec
     let mut in_init: [bool; MAX_TASKS] = [false; MAX_TASKS];
     let mut init_windows: Vec<(usize, usize, u8)> = Vec::new(); // (start idx, end idx, task)
     let mut init_start: [usize; MAX_TASKS] = [0; MAX_TASKS];
+    let mut last_construct: [Option<(u8, u8)>; MAX_TASKS] = [None; MAX_TASKS];
+    let mut once_slot: Vec<(u8, u8, u8)> = Vec::new(); // (key idx, table, depth)
     for (i, e) in ev.iter().enumerate() {
         sig.u64(((e.task as u64) << 24) | ((e.table as u64) << 16) | ((e.slot as u64) << 8) | e.kind as u64);
         let t = e.task as usize;
@@ -535,12 +563,16 @@ fn evaluate(sc: &Scenario, report: Report, race_phase_events: usize, h3: Vec<Vec
                     in_init[t] = false;
                     init_windows.push((init_start[t], i, e.task));
                 }
+                if let Some((tb, d)) = last_construct[t].take() {
+                    once_slot.push((e.slot, tb, d));
+                }
             }
             Kind::Construct => {
                 if !in_init[t] {
                     in_init[t] = true;
                     init_start[t] = i;
                 }
+                last_construct[t] = Some((e.table, e.slot));
             }
             _ => {}
         }
@@ -559,10 +591,16 @@ fn evaluate(sc: &Scenario, report: Report, race_phase_events: usize, h3: Vec<Vec
             }
         }
     }
-    for (_, m, _) in once_tasks.iter() {
+    for (k, m, _) in once_tasks.iter() {
         if m.count_ones() >= 2 {
             st.once_contended = true;
             st.contended = true;
+            // attribute the Once to the slot its winner constructed
+            if let Some((_, tb, d)) = once_slot.iter().find(|(kk, _, _)| kk == k) {
+                if (*tb as usize) < 2 && (*d as usize) < N_SLOTS {
+                    st.contended_slots[*tb as usize][*d as usize] = true;
+                }
+            }
         }
     }
     // stalls
@@ -594,6 +632,22 @@ fn evaluate(sc: &Scenario, report: Report, race_phase_events: usize, h3: Vec<Vec
         }
         if s.cut_short {
             st.stalls_cut_short += 1;
+        }
+        if s.triggered && (s.cut_short || s.fired) {
+            // stalled inside the initialiser while every other runnable thread was blocked
+            let mut n = 0u32;
+            let mut idx = None;
+            for (i, e) in ev.iter().enumerate() {
+                if e.task as usize == s.task {
+                    n += 1;
+                    if n == s.at_event { idx = Some(i); break; }
+                }
+            }
+            if let (Some(i), true) = (idx, s.cut_short) {
+                if init_windows.iter().any(|(a, b, t)| *t as usize == s.task && *a < i && i <= *b) {
+                    st.losers_blocked_while_winner_stalled += 1;
+                }
+            }
         }
     }
     // late joiners
@@ -651,10 +705,17 @@ fn reference_pass(sc: &Arc<Scenario>) -> Result<(), String> {
                 refs.push(t.ops.iter().map(exec).collect());
             }
             let c = verif_rt::sim::constructed();
+            let calls = verif_rt::sim::seam_calls() as usize;
+            let n_threads = scc.threads.len();
             ENGINE.with(|e| {
                 let mut e = e.borrow_mut();
                 e.reference = refs;
                 e.ref_constructed = c;
+                // Every scheduling step lets some task run to its next seam call / blocking point /
+                // exit, so a raced execution needs about (race phase + H3 re-execution) = 2x the
+                // reference's seam calls, plus spawn/join/blocking steps.  8x + slack is generous;
+                // exceeding it means a livelock or runaway computation under the race.
+                e.max_steps = (8 * calls + 400 * n_threads + 10_000).min(20_000_000);
             });
             cdshealpix::verif_reset();
         });
@@ -681,7 +742,7 @@ fn run_one(sc: &Arc<Scenario>, policy: Policy, sched_seed: u64, est_len: usize) 
         let mut cfg = shuttle::Config::new();
         cfg.stack_size = STACK_SIZE;
         cfg.failure_persistence = shuttle::FailurePersistence::None;
-        cfg.max_steps = shuttle::MaxSteps::FailAfter(MAX_STEPS);
+        cfg.max_steps = shuttle::MaxSteps::FailAfter(ENGINE.with(|e| e.borrow().max_steps));
         shuttle::Runner::new(SimScheduler { remaining: 1 }, cfg).run(move || execution_body(&scc));
     }));
     match r {
@@ -788,6 +849,7 @@ struct BatchStats {
     stalls_fired: u64,
     stalls_fired_in_init: u64,
     stalls_cut_short: u64,
+    losers_blocked_while_winner_stalled: u64,
     late_threads: u64,
     late_after_init: u64,
     late_forced_runs: u64,
@@ -814,9 +876,12 @@ fn policy_idx(p: &Policy) -> usize {
 }
 
 fn cmd_batch(a: &[String]) -> i32 {
-    if a.len() != 8 {
-        eprintln!("HARNESS-ERROR: usage: simb batch <verif_seed> <worker> <nworkers> <first_scenario> <n_scenarios> <scheds> <profile> <sigfile|->");
+    if a.len() != 8 && a.len() != 9 {
+        eprintln!("HARNESS-ERROR: usage: simb batch <verif_seed> <worker> <nworkers> <first_scenario> <n_scenarios> <scheds> <profile> <sigfile|-> [progress file]");
         return 2;
+    }
+    if a.len() == 9 {
+        progress_open(&a[8]);
     }
     let verif_seed: u64 = a[0].parse().expect("verif_seed");
     let worker: u64 = a[1].parse().expect("worker");
@@ -842,6 +907,7 @@ fn cmd_batch(a: &[String]) -> i32 {
         let sc = Arc::new(sc);
         bs.scenarios += 1;
         bs.threads_hist[sc.threads.len().min(MAX_TASKS - 1)] += 1;
+        progress("ref", idx, sseed, 0);
         if let Err(e) = reference_pass(&sc) {
             // the single-threaded run itself failed in the engine: not a C20 matter
             bs.scenarios_ref_failed += 1;
@@ -854,6 +920,7 @@ fn cmd_batch(a: &[String]) -> i32 {
         for k in 0..scheds {
             let policy = choose_policy(&mut prng);
             let sched_seed = splitmix64(sseed ^ splitmix64(k + 1));
+            progress("run", idx, sseed, k);
             let res = run_one(&sc, policy.clone(), sched_seed, est_len);
             est_len = res.stats.steps.max(8);
             let s = &res.stats;
@@ -870,6 +937,7 @@ fn cmd_batch(a: &[String]) -> i32 {
             bs.stalls_fired += s.stalls_fired as u64;
             bs.stalls_fired_in_init += s.stalls_fired_in_init as u64;
             bs.stalls_cut_short += s.stalls_cut_short as u64;
+            bs.losers_blocked_while_winner_stalled += s.losers_blocked_while_winner_stalled as u64;
             bs.late_threads += s.late_threads as u64;
             bs.late_after_init += s.late_after_init as u64;
             if s.late_forced { bs.late_forced_runs += 1; }
@@ -926,9 +994,9 @@ fn cmd_batch(a: &[String]) -> i32 {
     for (i, k) in OP_KINDS.iter().enumerate() { if i > 0 { okr.push(','); } let _ = write!(okr, "\"{}\":{}", k, bs.op_kind_runs[i]); }
     okr.push('}');
     println!(
-        "{{\"worker\":{},\"scenarios\":{},\"scenarios_ref_failed\":{},\"runs\":{},\"steps\":{},\"seam_events\":{},\"distinct_signatures\":{},\"distinct_nontrivial\":{},\"contended_runs\":{},\"once_contended_runs\":{},\"fast_path_reads\":{},\"stalls_configured\":{},\"stalls_triggered\":{},\"stalls_fired\":{},\"stalls_fired_in_init\":{},\"stalls_cut_short\":{},\"late_threads\":{},\"late_after_init\":{},\"late_forced_runs\":{},\"crash_ops\":{},\"crash_during_init\":{},\"multi_depth_ops_contended\":{},\"runs_with_violation\":{},\"first_use_contended\":{},\"constructed\":{},\"policy_runs\":{{\"random\":{},\"sticky\":{},\"pct1\":{},\"pct2\":{},\"pct3\":{}}},\"op_kind_runs\":{},\"threads_hist\":[{}],\"log_digest\":\"{:016x}\",\"samples\":[{}],\"findings\":[{}]}}",
+        "{{\"worker\":{},\"scenarios\":{},\"scenarios_ref_failed\":{},\"runs\":{},\"steps\":{},\"seam_events\":{},\"distinct_signatures\":{},\"distinct_nontrivial\":{},\"contended_runs\":{},\"once_contended_runs\":{},\"fast_path_reads\":{},\"stalls_configured\":{},\"stalls_triggered\":{},\"stalls_fired\":{},\"stalls_fired_in_init\":{},\"stalls_cut_short\":{},\"losers_blocked_while_winner_stalled\":{},\"late_threads\":{},\"late_after_init\":{},\"late_forced_runs\":{},\"crash_ops\":{},\"crash_during_init\":{},\"multi_depth_ops_contended\":{},\"runs_with_violation\":{},\"first_use_contended\":{},\"constructed\":{},\"policy_runs\":{{\"random\":{},\"sticky\":{},\"pct1\":{},\"pct2\":{},\"pct3\":{}}},\"op_kind_runs\":{},\"threads_hist\":[{}],\"log_digest\":\"{:016x}\",\"samples\":[{}],\"findings\":[{}]}}",
         worker, bs.scenarios, bs.scenarios_ref_failed, bs.runs, bs.steps, bs.events, sigs_all.len(), sigs_nontrivial.len(), bs.contended_runs, bs.once_contended_runs, bs.fast_path_reads,
-        bs.stalls_configured, bs.stalls_triggered, bs.stalls_fired, bs.stalls_fired_in_init, bs.stalls_cut_short, bs.late_threads, bs.late_after_init, bs.late_forced_runs, bs.crash_ops, bs.crash_during_init,
+        bs.stalls_configured, bs.stalls_triggered, bs.stalls_fired, bs.stalls_fired_in_init, bs.stalls_cut_short, bs.losers_blocked_while_winner_stalled, bs.late_threads, bs.late_after_init, bs.late_forced_runs, bs.crash_ops, bs.crash_during_init,
         bs.multi_depth_ops_contended, bs.runs_with_violation, arr2(&bs.first_use_contended), arr2(&bs.constructed),
         bs.policy_runs[0], bs.policy_runs[1], bs.policy_runs[2], bs.policy_runs[3], bs.policy_runs[4], okr,
         bs.threads_hist.iter().map(|x| x.to_string()).collect::<Vec<_>>().join(","), bs.log_digest, samples.join(","), findings.join(",")
@@ -939,6 +1007,11 @@ fn cmd_batch(a: &[String]) -> i32 {
 fn parse_schedule(s: &str) -> Result<Vec<u8>, String> {
     if s == "-" || s.is_empty() {
         return Ok(Vec::new());
+    }
+    if let Some(path) = s.strip_prefix('@') {
+        // long schedules do not fit in one argv entry
+        let txt = std::fs::read_to_string(path).map_err(|e| format!("cannot read schedule file {}: {}", path, e))?;
+        return parse_schedule(txt.trim());
     }
     s.split(',').map(|x| x.trim().parse::<u8>().map_err(|e| format!("bad schedule entry '{}': {}", x, e))).collect()
 }
@@ -965,10 +1038,11 @@ fn cmd_replay(a: &[String]) -> i32 {
 
 /// `simb search <scenario> <seed> <n> <class|any>`: seeded search over schedules of one scenario.
 fn cmd_search(a: &[String]) -> i32 {
-    if a.len() != 4 {
-        eprintln!("HARNESS-ERROR: usage: simb search <scenario> <seed> <n_schedules> <class|any>");
+    if a.len() != 4 && a.len() != 5 {
+        eprintln!("HARNESS-ERROR: usage: simb search <scenario> <seed> <n_schedules> <class|any> [only execution k]");
         return 2;
     }
+    let only: Option<u64> = if a.len() == 5 { Some(a[4].parse().expect("k")) } else { None };
     let sc = match decode(&a[0]) { Ok(s) => s, Err(e) => { eprintln!("HARNESS-ERROR: {}", e); return 2; } };
     let seed: u64 = a[1].parse().expect("seed");
     let n: u64 = a[2].parse().expect("n");
@@ -979,11 +1053,21 @@ fn cmd_search(a: &[String]) -> i32 {
         eprintln!("HARNESS-ERROR: {}", e);
         return 2;
     }
+    // the single-threaded reference pass survived: whatever kills the process from here on
+    // happened in a raced execution
+    eprintln!("REF-OK");
     let mut prng = Rng::new(splitmix64(seed ^ 0x5ced));
     let mut est_len = 40usize;
     for k in 0..n {
         let policy = choose_policy(&mut prng);
         let sched_seed = splitmix64(seed ^ splitmix64(k + 1));
+        if let Some(o) = only {
+            // reproduce exactly execution `o` of the batch: same policy stream, same est_len
+            // evolution is not needed for non-PCT policies; for PCT it only moves change points
+            if k < o && !matches!(policy, Policy::Pct { .. }) && false { continue; }
+        }
+        if only.map(|o| k > o).unwrap_or(false) { break; }
+        eprintln!("RUN {}", k);
         let res = run_one(&sc, policy.clone(), sched_seed, est_len);
         est_len = res.stats.steps.max(8);
         if res.violations.iter().any(|v| class == "any" || v.class == class) {
@@ -993,6 +1077,49 @@ fn cmd_search(a: &[String]) -> i32 {
     }
     println!("{{\"engine\":\"B\",\"searched\":{},\"violations\":[]}}", n);
     0
+}
+
+/// `simb seamcheck`: does the seam still fit the implementation?  For a few depths, a lone
+/// simulated thread does its first `get_or_create(d)` and its first use of the constants of `d`;
+/// twice, with `verif_reset()` in between.  Both times exactly one construction of each must be
+/// seen, together with a write to the corresponding `Slots` entry.  If not (tables refactored
+/// away from the hooked statics, state that `verif_reset` does not reset, ...) engine B cannot
+/// interpret what it observes and must declare itself unavailable instead of raising alarms.
+fn cmd_seamcheck() -> i32 {
+    let mut problems: Vec<String> = Vec::new();
+    // (depth 0 never touches the constants table: special-cased in the library)
+    for d in [1u8, 7, 19, 20, 29] {
+        let sc = Arc::new(Scenario { threads: vec![ThreadSpec { start: Start::Line, ops: vec![Op::L { d }, Op::V { d, lon: 1.0, lat: 0.5, r: None }] }], faults: vec![] });
+        if let Err(e) = reference_pass(&sc) {
+            problems.push(format!("depth {}: {}", d, e));
+            continue;
+        }
+        for pass in 0..2 {
+            let res = run_one(&sc, Policy::Random, 1 + pass, 40);
+            if !res.violations.is_empty() {
+                // a lone thread cannot violate C20: whatever this is, it is a seam / harness matter
+                problems.push(format!("depth {} pass {}: lone thread reports {}: {}", d, pass, res.violations[0].class, res.violations[0].detail));
+            }
+            for (tb, name) in [(0usize, "LAYERS"), (1usize, "CSTS_C2V")] {
+                let c = res.stats.constructed[tb][d as usize];
+                if c != 1 {
+                    problems.push(format!("depth {} pass {}: {}[{}] constructed {} time(s) by a lone first user (state survives verif_reset, or the constructor hook is bypassed)", d, pass, name, d, c));
+                }
+                let wrote = res.events.iter().any(|e| e.table as usize == tb && e.slot == d && e.kind == Kind::Write);
+                let read = res.events.iter().any(|e| e.table as usize == tb && e.slot == d && e.kind == Kind::Read);
+                if !wrote || !read {
+                    problems.push(format!("depth {} pass {}: no {} of the hooked {}[{}] slot although it was first-used (the tables no longer live in the hooked statics)", d, pass, if !wrote { "write" } else { "read" }, name, d));
+                }
+            }
+        }
+    }
+    if problems.is_empty() {
+        println!("{{\"ok\":true}}");
+        0
+    } else {
+        println!("{{\"ok\":false,\"why\":\"{}\"}}", json_escape(&problems[..problems.len().min(3)].join("; ")));
+        4
+    }
 }
 
 fn cmd_merge(a: &[String]) -> i32 {
@@ -1035,6 +1162,7 @@ fn main() {
         "replay" => cmd_replay(&args[2..]),
         "search" => cmd_search(&args[2..]),
         "merge" => cmd_merge(&args[2..]),
+        "seamcheck" => cmd_seamcheck(),
         _ => {
             eprintln!("HARNESS-ERROR: unknown sub-command");
             2
